@@ -17,6 +17,7 @@ CONSTANTS
   Fixed = TRUE
   Roots = {4}
   GenT = {}
+  FixedF5 = TRUE
   NoWeak = {}
 INVARIANT NeverEscapes
 INVARIANT EquivRefBounded
